@@ -421,6 +421,9 @@ func runC07(c *rt.Ctx) {
 	for i := 0; i < njoin; i++ {
 		c.Case("join", i, func(o *rt.Obs) { c07Join(c, o) })
 	}
+	for i, n := 0, c.N(200, 4000); i < n; i++ {
+		c.Case("clobber", i, func(o *rt.Obs) { c07Clobber(c, o) })
+	}
 	corpus, err := prog.LoadCorpus(prog.RepoDir())
 	if err != nil || len(corpus) == 0 {
 		c.Note("corpus_error", fmt.Sprint(err))
@@ -608,6 +611,59 @@ func c07Join(c *rt.Ctx, o *rt.Obs) {
 	}
 	vals := prog.GenInput(r, zctx, r.Range(2, 30), in)
 	c07Check(c, o, zctx, p, vals, nil, zbuf.PullerBatchValues, "")
+}
+
+// c07Clobber: the input is declared (and really is) sorted on a field, an
+// operator then re-assigns that field to something that is not sorted (a
+// computed expression, another field, a renamed field), and a group-by on the
+// field follows.  The optimizer must forget the order at the re-assignment;
+// if it does not, the group-by streams on an unsorted key and emits a group
+// more than once (batches hold 3 values).
+func c07Clobber(c *rt.Ctx, o *rt.Obs) {
+	r := o.R
+	zctx := zed.NewContext()
+	key := rt.Pick(r, []string{prog.FG, prog.FId, prog.FS, prog.FK})
+	decl := &c07Declared{Field: key, Desc: r.Chance(1, 4)}
+	other := rt.Pick(r, []string{"id % 3", "(id * 7) % 5", "-id", "id % 2 == 0", "len(s)", "g", "string(id % 4)", "id - 2 * (id % 4)", "v", "coalesce(v, 0) % 3"})
+	if key == prog.FG && other == "g" {
+		other = "id % 3"
+	}
+	var clobber string
+	switch r.Intn(6) {
+	case 0:
+		clobber = fmt.Sprintf("cut %s:=%s, id", key, other)
+	case 1:
+		clobber = fmt.Sprintf("cut id, %s:=%s", key, other)
+	case 2:
+		clobber = fmt.Sprintf("put %s:=%s", key, other)
+	case 3:
+		clobber = fmt.Sprintf("put w:=1, %s:=%s", key, other)
+	case 4:
+		clobber = fmt.Sprintf("yield {%s:%s, id:id}", key, other)
+	default:
+		clobber = fmt.Sprintf("drop %s | put %s:=%s", key, key, other)
+	}
+	pre := rt.Pick(r, []string{"", "", "where id >= 0 | ", "put w:=id | ", "where " + key + " != null | "})
+	mid := rt.Pick(r, []string{"", "", " | where id >= 0", " | put u:=1", " | cut id, " + key, " | pass"})
+	tail := rt.Pick(r, []string{
+		"count() by " + key,
+		"sum(id) by " + key,
+		"count() by " + key + " | sort " + key,
+		"collect(id) by " + key,
+		"count() by " + key + ", odd:=id % 2",
+		"min(id), max(id) by " + key,
+	})
+	text := pre + clobber + mid + " | " + tail
+	p := &prog.Program{Text: text, Mode: prog.ModeMultiset, ModeName: "multiset"}
+	if strings.HasPrefix(tail, "collect") {
+		p.Norm = map[string]prog.Norm{"collect": prog.NormMultiset}
+	}
+	in := prog.InputOpts{SortedBy: key, Desc: decl.Desc}
+	if r.Chance(1, 2) {
+		in.DistinctG, in.DistinctS = 3, 3
+	}
+	vals := prog.GenInput(r, zctx, r.Range(8, 40), in)
+	c07Check(c, o, zctx, p, vals, decl, zbuf.PullerBatchValues, "")
 }
 
 func c07Gen(c *rt.Ctx, o *rt.Obs) {
